@@ -121,6 +121,64 @@ def gen(src):
     stops = [_canon_stop(n.test) for n in ast.walk(lrun) if isinstance(n, ast.If) and any(isinstance(b, ast.Break) for b in n.body)]
     if len(stops) != 1:
         raise ExtractError(f'Loop.run: expected exactly one `if …: break`, found {stops}')
+    # --- collect_funcs with the loop variable abstracted (renaming a loop variable is harmless; reordering is not)
+    cf = src.func('starsim/loop.py', 'collect_funcs', 'Loop')
+    lrows = []
+
+    def appended(st, var, cont):
+        if not (isinstance(st, ast.AugAssign) and isinstance(st.op, ast.Add) and unparse(st.target) == 'self'
+                and isinstance(st.value, ast.Attribute)):
+            raise ExtractError(f'collect_funcs: unsupported statement {unparse(st)[:80]}')
+        obj = unparse(st.value.value)
+        if var is not None and obj != var:
+            raise ExtractError(f'collect_funcs: loop over {cont} appends a method of {obj}')
+        return obj, st.value.attr
+
+    for st in cf.body:
+        if isinstance(st, ast.Expr) and isinstance(st.value, ast.Constant): continue
+        if isinstance(st, ast.Return): continue
+        if isinstance(st, ast.Assign):
+            if (unparse(st.targets[0]), unparse(st.value)) in (('self.funcs', '[]'), ('sim', 'self.sim')): continue
+            raise ExtractError(f'collect_funcs: unsupported assignment {unparse(st)[:80]}')
+        if isinstance(st, ast.AugAssign):
+            obj, meth = appended(st, None, None)
+            lrows.append((obj, meth, ''))
+        elif isinstance(st, ast.For) and not st.orelse and isinstance(st.target, ast.Name):
+            var = st.target.id; cont = unparse(st.iter)
+            for inner in st.body:
+                guard = ''
+                if isinstance(inner, ast.If):
+                    if inner.orelse or len(inner.body) != 1:
+                        raise ExtractError('collect_funcs: unsupported if')
+                    # abstract the loop variable in the guard
+                    class R(ast.NodeTransformer):
+                        def visit_Name(self, n):
+                            return ast.copy_location(ast.Name(id='_', ctx=n.ctx), n) if n.id == var else n
+                    import copy as _copy
+                    guard = unparse(R().visit(_copy.deepcopy(inner.test)))
+                    inner = inner.body[0]
+                obj, meth = appended(inner, var, cont)
+                lrows.append((cont, meth, guard))
+        else:
+            raise ExtractError(f'collect_funcs: unsupported statement {unparse(st)[:80]}')
+    # --- Loop.__iadd__: the key under which a function's time vector is looked up, and its order
+    ia = src.func('starsim/loop.py', '__iadd__', 'Loop')
+    key_expr = None; order_expr = None
+    for n in ast.walk(ia):
+        if isinstance(n, ast.Assign) and unparse(n.targets[0]) == 'module':
+            key_expr = unparse(n.value)
+        if isinstance(n, ast.Call) and unparse(n.func) == 'dict':
+            for kwd in n.keywords:
+                if kwd.arg == 'func_order': order_expr = unparse(kwd.value)
+                if kwd.arg == 'module' and unparse(kwd.value) != 'module':
+                    raise ExtractError('__iadd__: row module is not the computed key')
+    if key_expr is None or order_expr is None:
+        raise ExtractError('__iadd__: owner key / func_order not found')
+    # make_plan: the time vector is looked up by that key
+    mp = src.func('starsim/loop.py', 'make_plan', 'Loop')
+    lookups = [unparse(n.iter) for n in ast.walk(mp) if isinstance(n, ast.For)]
+    if "self.abs_tvecs[func_row['module']]" not in lookups:
+        raise ExtractError(f'make_plan: time vectors are not looked up by the row\'s module key: {lookups}')
     rows = lambda items: ',\n  '.join('(' + ', '.join(lean_str(str(x)) for x in it) + ')' for it in items)
     body = f'''namespace StarsimModel.Gen
 /-- `Sim.modules`: containers chained, in order -/
@@ -136,7 +194,13 @@ def alreadyRunGuards : List (String × String) := [
   {rows(guards)}]
 /-- `Loop.run`: the condition of its only `break` -/
 def loopRunStop : String := {lean_str(stops[0])}
+/-- `Loop.collect_funcs` with the loop variable abstracted to `_`: (container, method, guard) in source order -/
+def loopRows : List (String × String × String) := [
+  {rows(lrows)}]
+/-- `Loop.__iadd__`: the key of `abs_tvecs` a function is scheduled on, and its `func_order` -/
+def iaddOwnerKey : String := {lean_str(key_expr)}
+def iaddFuncOrder : String := {lean_str(order_expr)}
 end StarsimModel.Gen
 '''
     return body, dict(chain=chain, ti_writes=[list(map(str, w)) for w in writes], abs_tvecs=[list(t) for t in tv],
-                      guards=[list(g) for g in guards], stop=stops[0])
+                      guards=[list(g) for g in guards], stop=stops[0], rows=[list(r) for r in lrows], owner_key=key_expr, func_order=order_expr)
